@@ -19,8 +19,9 @@ def b64(b):
 
 class Project:
     def __init__(self, scratch_root, tasks, scripts=None, disable_git=True, name="p", hostile=None):
-        """hostile: {"odd_root": bool, "condout_symlink": bool} - legitimate but unusual surroundings: a project
-        path with spaces and non-ASCII characters; cond-out placed on other storage behind a symbolic link"""
+        """hostile: {"odd_root": bool, "condout_symlink": bool, "outer_project": bool} - legitimate but unusual
+        surroundings: a project path with spaces and non-ASCII characters; cond-out placed on other storage behind a
+        symbolic link; the project nested inside another Conductor project's directory tree"""
         hostile = hostile or {}
         self.scratch = scratch_root
         plain = name   # helper files (scenario, event log, gates) keep shell-inert names
@@ -45,6 +46,12 @@ class Project:
             real_out = os.path.join(scratch_root, "storage vol", "deeper", name + "-cond-out")
             os.makedirs(real_out, exist_ok=True)
             os.symlink(real_out, os.path.join(self.root, "cond-out"))
+        if hostile.get("outer_project") and not os.path.exists(os.path.join(scratch_root, "cond_config.toml")):
+            # the project is nested in another Conductor project's tree; the nearest cond_config.toml is the root
+            with open(os.path.join(scratch_root, "cond_config.toml"), "w") as f:
+                f.write("disable_git = true\n")
+            with open(os.path.join(scratch_root, "COND"), "w") as f:
+                f.write("run_command(name='outer', run='exit 3')\n")
         self._pos = 0
 
     def write_scn(self):
@@ -87,8 +94,8 @@ class Project:
         return os.path.join(self.root, "cond-out", pkg, name + ".task" + ("" if version is None else ".%s" % version))
 
 
-def hostile_choice(rng, p_root=0.25, p_link=0.2):
-    return {"odd_root": rng.random() < p_root, "condout_symlink": rng.random() < p_link}
+def hostile_choice(rng, p_root=0.25, p_link=0.2, p_outer=0.15):
+    return {"odd_root": rng.random() < p_root, "condout_symlink": rng.random() < p_link, "outer_project": rng.random() < p_outer}
 
 
 def read_rows(root):
